@@ -6,10 +6,6 @@ KINDS = ["POOL/MAX", "POOL/AVERAGE", "POOL/REDUCE_SUM", "CONV", "DEPTHWISE", "EL
 SLICES = ["STRIDED_SLICE", "SPLIT", "SLICE"]
 VAL = ["value_mismatch", "garbage_dependent_output", "gap_uninit_read", "gap_async_uninit_read", "gap_unwritten_output_consumed"]
 FAM = {
- "F04-resize-bilinear-hpc-blockdep": dict(
-    what="RESIZE_BILINEAR with half_pixel_centers: the 2x2 depthwise steps read one row/column more than npu_op.ifm.shape (edge replication through the tile bases); calc_blockdep clips its first-job IFM volume to ifm.shape, misses the overlap with the producer's last OFM block and programs BLOCKDEP too large",
-    ctx=dict(requires_layers=["RESIZE_BILINEAR"], max_layers=8, kind_any=["DEPTHWISE"]),
-    sigs={"C04": ["async_uninit_read", "async_foreign_read", "reads_from_divergence"], "C10": ["gap_async_uninit_read"]}),
 }
 FIXED = [
  "fixed: property=C13 54fac24 every network with weights aborted with OverflowError (int32 memory histogram minus 1<<32 under NumPy 2), live_range.py:149 / scheduler.py:667",
@@ -67,6 +63,7 @@ FIXED = [
  "fixed: property=C01 6aec2b8 PAD ; AVERAGE_POOL_2D with a fused RELU-family activation (explicit padding, converted to a depthwise convolution with the zero point in the bias and OFM zero point 0): the clamp was computed without the zero point, RELU cut at code 0 instead of at the zero point (findings/FX-pad-avgpool-relu-clamp.C01.json)",
  "fixed: property=C11 f662831 (was known finding F12) a RESIZE whose output size equals its input size was removed as Identity and its output tensor replaced by the input tensor: a network output was published under another name (findings/FX-F12-identity-resize-renames-output.C11.json)",
  "fixed: property=C13 68691cf (was known finding F07) PAD ; MEAN over H and W: the explicit padding was fused into the depthwise convolution MEAN had been lowered to, whose read offset/shape refer to the padded tensor; AssertionError in tensor.address_for_coordinate (findings/FX-F07-pad-then-mean.C13.json)",
+ "fixed: property=C04 f2e4106 (was known finding F04) RESIZE_BILINEAR with half_pixel_centers: the first 2x2 depthwise step replicates the first row/column through its tile registers; calc_blockdep compared blocks by coordinate, missed the producer's last OFM block and programmed BLOCKDEP too large (read of not yet written rows under asynchronous schedules) (findings/FX-F04-resize-bilinear-hpc-blockdep.C04.json)",
 ]
 EXTRA = [
  dict(id="F19-non-default-allocator-exceeds-arena-cache", property="C02", status="known",
